@@ -38,10 +38,13 @@ const (
 type Behaviour string
 
 const (
-	OK              Behaviour = "ok"
-	CallError       Behaviour = "call_error"       // call: sets __call_error
-	CallTimeout     Behaviour = "call_timeout"     // call: exceeds its own timeout and reports it
-	CallSlow        Behaviour = "call_slow"        // call: takes HookSpec.SleepMs (may be far beyond its timeout) and succeeds
+	OK          Behaviour = "ok"
+	CallError   Behaviour = "call_error"   // call: sets __call_error
+	CallTimeout Behaviour = "call_timeout" // call: exceeds its own timeout and reports it
+	CallSlow    Behaviour = "call_slow"    // call: takes HookSpec.SleepMs (may be far beyond its timeout) and succeeds
+	// CallEvalError: the hook expression (HookSpec.Func) cannot be evaluated: the plugin function is
+	// never reached, so such a hook leaves no hook_start / hook_end record; it fails in every invocation
+	CallEvalError   Behaviour = "call_eval_error"
 	TaskExitNonZero Behaviour = "task_exit"        // hook task: exit code 3
 	TaskInvoluntary Behaviour = "task_involuntary" // hook task: exit code 0 but not a voluntary termination
 	TaskTimeout     Behaviour = "task_timeout"     // hook task: termination never reported
@@ -61,6 +64,8 @@ type HookSpec struct {
 	Critical  *bool     `json:"critical,omitempty"`
 	Behaviour Behaviour `json:"behaviour,omitempty"`
 	Gate      bool      `json:"gate,omitempty"`
+	// Func overrides the hook expression of a call role ("" = verif.Probe()).
+	Func string `json:"func,omitempty"`
 	// SleepMs is how long a CallSlow invocation takes.
 	SleepMs int `json:"sleep_ms,omitempty"`
 	// OnlyInv restricts Behaviour and Gate to the n-th invocation (1-based) of the hook; 0 = every invocation.
@@ -225,7 +230,11 @@ func Workflow(name string, hooks []HookSpec) string {
 		if h.Kind == Task {
 			fmt.Fprintf(&sb, "    task:\n      load: %s\n", HookTaskClass)
 		} else {
-			fmt.Fprintf(&sb, "    call:\n      func: verif.Probe()\n")
+			fn := h.Func
+			if fn == "" {
+				fn = "verif.Probe()"
+			}
+			fmt.Fprintf(&sb, "    call:\n      func: %q\n", fn)
 		}
 		fmt.Fprintf(&sb, "      trigger: %q\n", h.Trigger)
 		if h.Await != "" {
